@@ -600,6 +600,13 @@ func bringEvent(g *Gen) J {
 		"sigma1": []interface{}{J{"k": chars("hole9"), "v": projItem(bi)}}, "sigma2": s2}
 	one, r1 := outcomeOf(func() ast.ItemNode { return t.FillVariables(map[string]interface{}{"hole9": bi}) })
 	ev["one"] = one
+	// the value and values for the variables it brings in one and the same call: those keys name nothing in the template
+	// (unknown keys are ignored), the brought variables stay as they are
+	both := map[string]interface{}{"hole9": bi}
+	for k, v := range sigma2 {
+		both[k] = v
+	}
+	ev["oncall"], _ = outcomeOf(func() ast.ItemNode { return t.FillVariables(both) })
 	ev["two"], ev["direct"] = J{"outcome": "refused"}, J{"outcome": "refused"}
 	if r1 != nil {
 		ev["two"], _ = outcomeOf(func() ast.ItemNode { return r1.FillVariables(sigma2) })
@@ -608,6 +615,24 @@ func bringEvent(g *Gen) J {
 		})
 	}
 	return ev
+}
+
+// outcomeSmall: outcome of a call whose result is too large to be recorded: refused, or the size and encoded length
+func outcomeSmall(f func() ast.ItemNode) (J, ast.ItemNode) {
+	var it ast.ItemNode
+	refused := false
+	func() {
+		defer func() {
+			if r := recover(); r != nil {
+				refused = true
+			}
+		}()
+		it = f()
+	}()
+	if refused {
+		return J{"outcome": "refused", "size": -1, "enc": -1}, nil
+	}
+	return J{"outcome": "ok", "size": it.Size(), "enc": len(it.ToBytes())}, it
 }
 
 func driverFill(c *Ctx) {
@@ -619,6 +644,45 @@ func driverFill(c *Ctx) {
 		if i%12 == 5 {
 			c.emit(i, bringEvent(g))
 			c.count("fill.brought-variables")
+			continue
+		}
+		if i%12 == 7 {
+			// a fill-in string around the largest item there can be: refused exactly where the factory refuses it,
+			// whatever bounds the variable declares above that, alone, in a list and through a message
+			n := []int{16777214, 16777215, 16777216, 16777217, 16777215 + 4096}[g.pick(5)]
+			hi := []int{-1, -1, 16777216, 20000000, 1 << 40}[g.pick(5)]
+			lo := []int{0, 1, 16777215}[g.pick(3)]
+			if lo > n {
+				lo = 0
+			}
+			str := strings.Repeat("abcdefgh", n/8+1)[:n]
+			ev := J{"ev": "fillbig", "n": n, "lo": lo, "hi": hi >= 0, "via": g.pick(3)}
+			ctor, _ := outcomeSmall(func() ast.ItemNode { return ast.NewASCIINode(str) })
+			ev["ctor"] = ctor
+			via := ev["via"].(int)
+			ev["fill"], _ = outcomeSmall(func() ast.ItemNode {
+				v := ast.NewASCIINodeVariable("big9", lo, hi)
+				switch via {
+				case 0:
+					return v.FillVariables(map[string]interface{}{"big9": str})
+				case 1:
+					r := ast.NewListNode(ast.NewUintNode(1, 1), v).FillVariables(map[string]interface{}{"big9": str})
+					b := r.ToBytes()
+					if len(r.Variables()) != 0 || len(b) != 2+3+4+n {
+						return ast.NewEmptyItemNode() // accepted, but not the item it should be: recorded as size 0
+					}
+					return ast.NewASCIINode(string(b[9:]))
+				default:
+					m := ast.NewDataMessage("big", 1, 1, 1, "H->E", v).FillVariables(map[string]interface{}{"big9": str}).SetSessionIDAndSystemBytes(1, []byte{0, 0, 0, 1})
+					b := m.ToBytes()
+					if len(m.Variables()) != 0 || len(b) != 14+4+n {
+						return ast.NewEmptyItemNode()
+					}
+					return ast.NewASCIINode(string(b[18:]))
+				}
+			})
+			c.emit(i, ev)
+			c.count("fill.big")
 			continue
 		}
 		if i%12 == 11 {
@@ -1069,6 +1133,32 @@ func driverCtor(c *Ctx) {
 		switch g.pick(3) {
 		case 0: // the value in second position, behind an in-domain value
 			args = []interface{}{g.value(f), arg}
+			if g.pick(2) == 0 {
+				// ... of exactly the Go type that has the item's width (what a decoder would pass): the value under
+				// test behind it is of another type and is still judged on its own
+				switch f {
+				case "I1":
+					args[0] = int8(1 - 2*int8(g.pick(2)))
+				case "I2":
+					args[0] = int16(300 - 600*int16(g.pick(2)))
+				case "I4":
+					args[0] = int32(70000 - 140000*int32(g.pick(2)))
+				case "I8":
+					args[0] = int64(5000000000)
+				case "U1":
+					args[0] = uint8(200)
+				case "U2":
+					args[0] = uint16(60000)
+				case "U4":
+					args[0] = uint32(4000000000)
+				case "U8":
+					args[0] = uint64(1) << 63
+				case "F4":
+					args[0] = float32(1.5)
+				case "F8":
+					args[0] = float64(2.5)
+				}
+			}
 			pre = 1
 		case 1: // ... in first position, in front of an in-domain value of the narrowest Go type the format takes
 			switch {
